@@ -104,6 +104,11 @@ fn unique_rate(model: &PriceModel, from: &str, to: &str, d: NaiveDate) -> Result
     }
 }
 
+thread_local! {
+    /// holdings whose exact and pre-rounded conversions differ (how often the rounding clause bites)
+    static POLICY_DIFFERS: std::cell::Cell<u64> = const { std::cell::Cell::new(0) };
+}
+
 fn expect(
     model: &PriceModel,
     txns: &[(NaiveDate, Vec<(String, Vec<(String, Q)>)>)],
@@ -187,11 +192,12 @@ fn expect(
                     pre_rounded = b;
                     scale += f(*v) * f(r);
                 }
-                let mut v = vec![exact];
+                // "rounded only to T's declared precision": a holding is converted as it stands; a
+                // report that first rounds it to its own commodity's precision differs
                 if pre_rounded != exact {
-                    v.push(pre_rounded);
+                    POLICY_DIFFERS.with(|c| c.set(c.get() + 1));
                 }
-                out.insert(acct, (v, scale));
+                out.insert(acct, (vec![exact], scale));
             }
         }
     }
@@ -522,7 +528,12 @@ impl Check for C10 {
                 rec.count("query:target-unknown");
                 continue;
             }
+            let before = POLICY_DIFFERS.with(|c| c.get());
             let exp = expect(&model, &txns, &precision, q);
+            let bites = POLICY_DIFFERS.with(|c| c.get()) - before;
+            if bites > 0 {
+                rec.count_n("holdings-with-more-decimals-than-their-format", bites);
+            }
             if !judge(rec, q, &exp, got, precision.get(&q.target).copied(), "api", &wit) {
                 all_ok = false;
                 break;
@@ -602,7 +613,7 @@ impl Check for C10 {
     fn assumptions(&self) -> Vec<String> {
         vec![
             "a posting's recorded price is its cost, else its lot price (postings never carry both)".into(),
-            "up-to-date reports may round each holding to its own commodity's precision before converting (the range path does), or not; both totals are accepted".into(),
+            "holdings are converted as they stand (exact sums of the stored posting amounts); rounding a holding to its own commodity's precision before converting is a deviation".into(),
             "a missing rate that only a zero-valued amount would need makes the query unspecified".into(),
             "a target commodity that occurs nowhere is 'commodity not found', not a conversion".into(),
         ]
